@@ -134,9 +134,19 @@ FRAG_PIECES = ["double", "cdouble", "double4", "double16", "xdouble", "doubled",
                "1..2", "1.e5", "01.5", ".e3", "1e", "1e+", "5.e", "M_PI", "double2x", "sin (4 )", "cos(+1)", "tan(x)"]
 
 
+def gen_number(rng):
+    """A numeric shape from the literal grammar and its near misses."""
+    ip = rng.choice(["", "", "0", "1", "7", "12", "100", "00", "05"])
+    fr = rng.choice(["", "", ".", ".0", ".5", ".05", ".001", ".123", ".00"])
+    ex = rng.choice(["", "", "", "e3", "E5", "e0", "e+3", "e-07", "E+10", "e", "e+", "e-"])
+    tail = rng.choice(["", "", "", "f", "L", "x", "_", ".", "u"])
+    head = rng.choice(["", "", "", "x", "_", ".", "-", "+"])
+    return head + ip + fr + ex + tail
+
+
 def gen_fragment(rng):
     n = rng.randint(1, 14)
-    return "".join(rng.choice(FRAG_PIECES) for _ in range(n))
+    return "".join((gen_number(rng) + rng.choice([" ", ";", ",", ")", ""])) if rng.random() < 0.35 else rng.choice(FRAG_PIECES) for _ in range(n))
 
 
 ALPHABET = ["double", "c", "x", "_", "0", "1", "2", "6", ".", "e", "+", "f", " ", "(", ",", "\""]
@@ -207,7 +217,8 @@ def main(run):
             stats["wf_fragments"] += 1
             exp = "".join(t for _, t in expected_tokens(toks, *TYPE[mode]))
             if got != exp and lex_stable(s):
-                run.add(Finding("C15:fragment", "fragment %r float%s: got %r, token-level specification %r" % (s, mode, got, exp),
+                lz = [t for k, t in toks if k == "float" and re.match(r"0\d", t)]
+                run.add(Finding("C15:nonwf:leadingzero" if lz else "C15:fragment", "fragment %r float%s: got %r, token-level specification %r" % (s, mode, got, exp),
                                 dict(text=s, mode=mode, got=got, expected=exp)))
     # 3. exhaustive short strings over a 16-symbol alphabet (double is one symbol)
     L = 3 if not thorough else 5
